@@ -129,17 +129,21 @@ Proof.
 Qed.
 
 (* ------------------------------------------------------------------ one line *)
-Definition name_ok_P (s : str) : Prop := s <> [] /\ Forall (fun c => is_space c = false /\ c <> 44) s.
+Definition name_ok_P (s : str) : Prop :=
+  (exists s' c, s = s' ++ [c] /\ is_space c = false) /\ Forall (fun c => c <> 9 /\ c <> 10 /\ c <> 13 /\ c <> 44) s.
 Definition base_ok_P (b : str) : Prop := Forall (fun c => c <> 9 /\ c <> 10 /\ c <> 13) b.
 
 Lemma name_ok_iff s : name_ok s = true <-> name_ok_P s.
 Proof.
-  unfold name_ok, name_ok_P. rewrite andb_true_iff, forallb_forall, Forall_forall. split.
-  - intros [H1 H2]. split; [destruct s; [discriminate|discriminate]|].
-    intros c Hc. specialize (H2 c Hc). unfold name_char_ok in H2. apply andb_true_iff in H2.
-    destruct H2 as [A B]. apply negb_true_iff in A, B. split; [exact A|]. apply Z.eqb_neq, B.
-  - intros [H1 H2]. split; [destruct s; [congruence|reflexivity]|].
-    intros c Hc. destruct (H2 c Hc) as [A B]. unfold name_char_ok. rewrite A. apply Z.eqb_neq in B. rewrite B. reflexivity.
+  unfold name_ok, name_ok_P. rewrite andb_true_iff, forallb_forall, Forall_forall.
+  assert (HC : forall c, name_char_ok c = true <-> (c <> 9 /\ c <> 10 /\ c <> 13 /\ c <> 44)).
+  { intros c. unfold name_char_ok. rewrite negb_true_iff, !orb_false_iff, !Z.eqb_neq. tauto. }
+  split.
+  - intros [H1 H2]. split; [|intros c Hc; apply HC, H2, Hc].
+    destruct s as [|x s]; [discriminate|]. exists (removelast (x :: s)), (last (x :: s) 32).
+    split; [apply app_removelast_last; discriminate|]. apply negb_true_iff, H1.
+  - intros [(s' & c & E & Hc) H2]. split; [|intros c0 Hc0; apply HC, H2, Hc0].
+    subst s. rewrite last_last. rewrite Hc. reflexivity.
 Qed.
 Lemma base_ok_iff b : forallb base_char_ok b = true <-> base_ok_P b.
 Proof.
@@ -149,21 +153,25 @@ Proof.
   - destruct H as (H1 & H2 & H3). unfold base_char_ok. apply Z.eqb_neq in H1, H2, H3. rewrite H1, H2, H3. reflexivity.
 Qed.
 
-Lemma not_space_not_ws c : is_space c = false -> c <> 9 /\ c <> 10 /\ c <> 13.
-Proof.
-  intros H. unfold is_space in H. repeat (apply orb_false_iff in H; destruct H as [H ?]).
-  apply andb_false_iff in H. lia.
-Qed.
-
 Definition body_of (p : Z) (b : str) (ss : list str) : str := print_int p ++ 9 :: b ++ 9 :: join 44 ss.
 
 Lemma line_of_body p kv : line_of p kv = body_of p (fst kv) (snd kv) ++ [10].
 Proof. unfold line_of, body_of. rewrite <- !app_assoc. cbn. rewrite <- app_assoc. reflexivity. Qed.
 
-Lemma join_names_chars ss : (forall s, In s ss -> name_ok_P s) -> Forall (fun c => is_space c = false) (join 44 ss).
+Lemma join_names_chars ss : (forall s, In s ss -> name_ok_P s) -> Forall (fun c => c <> 9 /\ c <> 10 /\ c <> 13) (join 44 ss).
 Proof.
-  intros H. apply (join_chars (fun c => is_space c = false)); [reflexivity|].
-  intros s Hs. destruct (H s Hs) as [_ Hall]. eapply Forall_impl; [|exact Hall]. intros c [A _]. exact A.
+  intros H. apply (join_chars (fun c => c <> 9 /\ c <> 10 /\ c <> 13)); [lia|].
+  intros s Hs. destruct (H s Hs) as [_ Hall]. eapply Forall_impl; [|exact Hall]. intros c (A & B & C & _). auto.
+Qed.
+(* the line ends in a character strip() leaves alone *)
+Lemma join_names_last ss : ss <> [] -> (forall s, In s ss -> name_ok_P s) ->
+  exists l c, join 44 ss = l ++ [c] /\ is_space c = false.
+Proof.
+  induction ss as [|x ss IH]; intros Hne H; [congruence|]. destruct ss as [|y ss].
+  - destruct (H x (or_introl eq_refl)) as [(s' & c & E & Hc) _]. exists s', c. cbn. auto.
+  - destruct IH as (l & c & E & Hc); [discriminate|intros s Hs; apply H; right; exact Hs|].
+    exists (x ++ 44 :: l), c. split; [|exact Hc].
+    change (join 44 (x :: y :: ss)) with (x ++ 44 :: join 44 (y :: ss)). rewrite E, <- app_assoc. reflexivity.
 Qed.
 
 Lemma body_no_nl p b ss : base_ok_P b -> (forall s, In s ss -> name_ok_P s) ->
@@ -175,8 +183,7 @@ Proof.
   - apply in_app_or in Hc. destruct Hc as [Hc|[Hc|Hc]].
     + unfold base_ok_P in Hb. rewrite Forall_forall in Hb. specialize (Hb c Hc). lia.
     + lia.
-    + pose proof (join_names_chars ss Hs) as Hj. rewrite Forall_forall in Hj. specialize (Hj c Hc).
-      apply not_space_not_ws in Hj. lia.
+    + pose proof (join_names_chars ss Hs) as Hj. rewrite Forall_forall in Hj. specialize (Hj c Hc). lia.
 Qed.
 
 Lemma parse_line_body p b ss :
@@ -184,26 +191,25 @@ Lemma parse_line_body p b ss :
   parse_line (body_of p b ss) = Some (p, b, ss).
 Proof.
   intros Hb Hne Hs Hsort. unfold parse_line.
-  assert (Hj : Forall (fun c => is_space c = false) (join 44 ss)) by (apply join_names_chars, Hs).
-  assert (Hjn : join 44 ss <> []).
-  { apply join_nonnil; [exact Hne|]. intros s Hin. apply (Hs s Hin). }
-  (* strip is the identity *)
+  assert (Hj : Forall (fun c => c <> 9 /\ c <> 10 /\ c <> 13) (join 44 ss)) by (apply join_names_chars, Hs).
+  (* strip is the identity: the line starts with a digit or '-' and ends with the last character of a sample name *)
   assert (Estrip : strip (body_of p b ss) = body_of p b ss).
-  { destruct (print_int_head p) as (c0 & rest & E0 & H0). unfold body_of.
-    replace (print_int p ++ 9 :: b ++ 9 :: join 44 ss) with ((print_int p ++ 9 :: b ++ [9]) ++ join 44 ss).
+  { destruct (print_int_head p) as (c0 & rest & E0 & H0). destruct (join_names_last ss Hne Hs) as (l & c & El & Hc).
+    unfold body_of. rewrite El.
+    replace (print_int p ++ 9 :: b ++ 9 :: l ++ [c]) with ((print_int p ++ 9 :: b ++ 9 :: l) ++ [c]).
     2:{ rewrite <- !app_assoc. cbn. rewrite <- app_assoc. reflexivity. }
-    eapply strip_keep; [|exact H0|exact Hjn|exact Hj]. rewrite E0. cbn. reflexivity. }
+    eapply strip_keep; [|exact H0|discriminate|constructor; [exact Hc|constructor]]. rewrite E0. cbn. reflexivity. }
   rewrite Estrip. unfold body_of.
   rewrite split_on_app.
   2:{ intros Hin. pose proof (print_int_chars p) as Hp. rewrite Forall_forall in Hp. specialize (Hp 9 Hin). lia. }
   rewrite split_on_app.
   2:{ intros Hin. unfold base_ok_P in Hb. rewrite Forall_forall in Hb. specialize (Hb 9 Hin). lia. }
   rewrite split_on_one.
-  2:{ intros Hin. rewrite Forall_forall in Hj. specialize (Hj 9 Hin). discriminate. }
+  2:{ intros Hin. rewrite Forall_forall in Hj. specialize (Hj 9 Hin). lia. }
   rewrite parse_print_int. rewrite split_join.
   - fold (canon ss). rewrite canon_id by exact Hsort. reflexivity.
   - exact Hne.
-  - intros s Hin H44. destruct (Hs s Hin) as [_ Hall]. rewrite Forall_forall in Hall. destruct (Hall 44 H44) as [_ F]. congruence.
+  - intros s Hin H44. destruct (Hs s Hin) as [_ Hall]. rewrite Forall_forall in Hall. specialize (Hall 44 H44). lia.
 Qed.
 
 (* ------------------------------------------------------------------ the dict level *)
